@@ -444,6 +444,15 @@ def r15_8_partial_frontier(repo: Repo, rep: Report):
     r10_4_cache_published_before_complete(repo, rep)
 
 
+def r15_11_inherited_constraints(repo: Repo, rep: Report):
+    """round 7: a state of the frontier at depth d carries the constraints of its d transactions into depth d+1
+    through Path.extend_path - the conditions list, the dependency index and the sliced view stay consistent
+    (shared with C11 R11.2); losing an inherited constraint merges or mis-extends call sequences"""
+    from hsa.rules.c11 import r11_2_constraint_ownership
+
+    r11_2_constraint_ownership(repo, rep)
+
+
 def r15_7_loop_logs(repo: Repo, rep: Report):
     rep.rule("R10.2", "loop logs of invariant target calls are reported (shared with C10)")
     r10_2_loop_logs_reported(repo, rep)
@@ -454,4 +463,4 @@ def r15_7_loop_logs(repo: Repo, rep: Report):
     check_verdict_sites(repo, rep, "R02.1", modules=("__main__",))
 
 
-RULES = [r15_10_probe_marking, r15_9_selector_decoding, r15_1_depth_indexing, r15_2_loop_completeness, r15_3_identity_retention, r15_4_probe_results_reach_a_verdict, r15_5_symbolic_transaction, r15_6_filters_structure, r15_7_loop_logs, r15_8_partial_frontier]
+RULES = [r15_10_probe_marking, r15_9_selector_decoding, r15_1_depth_indexing, r15_2_loop_completeness, r15_3_identity_retention, r15_4_probe_results_reach_a_verdict, r15_5_symbolic_transaction, r15_6_filters_structure, r15_7_loop_logs, r15_8_partial_frontier, r15_11_inherited_constraints]
